@@ -1,6 +1,10 @@
 /* C09 harness: drawing requests on a real xterm TickitTerm.
  * case:  <lines> <cols> <slrm> <colon> <rgb> <op>...
- *   ops: G:l:c  M:d:r  P:hex  E:n:me  K  S:t:l:h:w:d:r  c:<pen>  s:<pen>
+ *   ops: G:l:c  M:d:r  P:hex (printn of all bytes)  p:hex (tickit_term_print)  n:hex:len (printn of the first len
+ *        bytes of the NUL-terminated string)  E:n:me  K  S:t:l:h:w:d:r  c:<pen>  s:<pen>
+ *        O:size (tickit_term_set_output_buffer)  F (tickit_term_flush)
+ * Only the public API of term.c is called.  Output is flushed after every op, so with an output buffer the
+ * chunking path of write_str is exercised while the observation stays "bytes written, in order".
  * observation: I:<start-up bytes> then per op <ret>:<bytes>, all hex ("-" = none). */
 #include "xt_common.h"
 
@@ -34,6 +38,21 @@ int main(void)
           tickit_term_printn(tt, (char *)b, len);
           free(b); break;
         }
+        case 'p': {
+          if(nf < 2) goto bad;
+          size_t len; unsigned char *b = vh_hex(f[1], &len);
+          tickit_term_print(tt, (char *)b);
+          free(b); break;
+        }
+        case 'n': {
+          if(nf < 3) goto bad;
+          size_t len; unsigned char *b = vh_hex(f[1], &len);
+          if((size_t)atoi(f[2]) > len) { free(b); goto bad; }
+          tickit_term_printn(tt, (char *)b, atoi(f[2]));
+          free(b); break;
+        }
+        case 'O': if(nf < 2) goto bad; tickit_term_set_output_buffer(tt, atoi(f[1])); break;
+        case 'F': break;
         case 'E': if(nf < 3) goto bad; tickit_term_erasech(tt, atoi(f[1]), atoi(f[2])); break;
         case 'K': tickit_term_clear(tt); break;
         case 'S': {
